@@ -5,7 +5,7 @@ from spacepackets.cfdp.tlv.msg_to_user import (
     ProxyCancelRequest, ProxyClosureRequest, ProxyTransmissionMode, OriginatingTransactionId, DirectoryListingRequest,
     DirectoryListingResponse, DirectoryListingParameters, DirectoryParams, DirListingOptions)
 from spacepackets.cfdp.tlv.defs import ProxyMessageType, DirectoryOperationMessageType
-from spacepackets.cfdp.defs import TransactionId, ConditionCode
+from spacepackets.cfdp.defs import TransactionId, ConditionCode, DeliveryCode, FileStatus, TransmissionMode
 from spacepackets.cfdp.lv import CfdpLv
 from spacepackets.util import UnsignedByteField
 
@@ -85,7 +85,7 @@ def h_put_response(ctx):
     cond = ctx.int("cond", 0, 15)
     ctx.assume(member(cond, COND_VALUES))
     deliv, fs = ctx.flag("delivery"), ctx.int("file_status", 0, 3)
-    msg = ProxyPutResponse(ProxyPutResponseParams(cond, deliv, fs))
+    msg = ProxyPutResponse(ProxyPutResponseParams(en(ctx, ConditionCode, cond), en(ctx, DeliveryCode, deliv), en(ctx, FileStatus, fs)))
     r = roundtrip(ctx, msg, 0x07, [(cond << 4) | (deliv << 2) | fs])
     if r is None:
         return
@@ -105,7 +105,7 @@ def h_simple(ctx, which):
             ctx.holds("closure flag returned exactly", e is None and v is not None and (v == f), exc_name(e))
     elif which == "mode":
         m = ctx.flag("mode")
-        r = roundtrip(ctx, ProxyTransmissionMode(m), 0x04, [m])
+        r = roundtrip(ctx, ProxyTransmissionMode(en(ctx, TransmissionMode, m)), 0x04, [m])
         if r is not None:
             e, v = call(r.get_proxy_transmission_mode)
             ctx.holds("transmission mode returned exactly", e is None and v is not None and (v == m), exc_name(e))
